@@ -16,6 +16,7 @@ import z3
 
 from contracts import inputs
 from props import C08
+from props._contracts import scn_mesh_mask_contract  # noqa: F401
 from props.C10 import Table
 from pyvc import core
 from pyvc.api import (FIN, PathEnd, SFloat, Variable, XDataArray, XDataset, add_var, call, cls, expect_ok, expect_raise, fn, method,
@@ -43,6 +44,8 @@ def scenarios(tier):
                      ('CFGrid2D', {'as_coords': False}), ('ShocStandard', {}), ('UGrid', {'edges': 'both'}), ('UGrid', {'edges': 'edge_node'}),
                      ('UGrid', {'edges': 'none', 'face_coords': True, 'coords_as': 'coords'}), ('UGrid', {'edges': 'both', 'tables': ('face_edge', 'edge_face', 'face_face'), 'edge_coords': True})):
         out.append({'name': f'select_variables keeps the geometry[{conv} {kw}]', 'fn': 'scn_select', 'kwargs': {'conv': conv, 'kw': kw}})
+    from props._contracts import mesh_mask_contract_scenarios
+    out += mesh_mask_contract_scenarios()        # the mesh clip mask the scenarios above take as given (verified by C07), re-verified here
     return out
 
 
